@@ -39,7 +39,10 @@ def inline_elem(rng, depth, used, quotes):
         if not q[3]:
             inner = words(rng, 1, 2)
             if rng.random() < 0.4:
-                inner += ' ' + rng.choice(['*a*', '<b>', '[l](u)', '&amp;', 'http://a.b', '_z_'])
+                # verbatim content with markup in it, avoiding the delimiter characters of the enclosing quotes
+                ext = [e for e in ['*a*', '<b>', '[l](u)', '&amp;', 'http://a.b', '_z_', '~~d~~'] if not (set(e) & (used | {q[0][0]}))]
+                if ext:
+                    inner += ' ' + rng.choice(ext) + ' w'
             return q[0] + inner + q[0], q[1] + escape(inner) + q[2]
         src, html = inline_seq(rng, depth + 1, used | {q[0][0]}, quotes, rng.randint(1, 3))
         return q[0] + src + q[0], q[1] + html + q[2]
@@ -56,7 +59,7 @@ def inline_elem(rng, depth, used, quotes):
     if r < 0.79:
         u = rng.choice([x for x in URLWORDS if x.startswith('http')])
         return '<' + u + '>', '<a href="' + escape(u) + '">' + escape(u) + '</a>'
-    if r < 0.83:
+    if r < 0.83 and depth == 0:
         u = rng.choice([x for x in URLWORDS if x.startswith('http') and not x.endswith('=1')])
         return u, '<a href="' + escape(u) + '">' + escape(u) + '</a>'
     if r < 0.87:
@@ -78,17 +81,24 @@ def inline_elem(rng, depth, used, quotes):
     return e, e
 
 
+def caption_elem(rng, used, quotes):
+    """captions are words, possibly inside a span quote (no replacement form, no special character)"""
+    avail = [q for q in quotes if q[3] and q[0][0] not in used]
+    if avail and rng.random() < 0.4:
+        q = rng.choice(avail)
+        w = words(rng, 1, 2)
+        return q[0] + w + q[0], q[1] + w + q[2]
+    w = words(rng, 1, 2)
+    return w, w
+
+
 def inline_seq(rng, depth, used, quotes, n, no_links=False):
     srcs, htmls = [], []
     for _ in range(n):
-        for _try in range(5):
-            s, h = inline_elem(rng, depth, used, quotes)
-            if no_links and re.match(r'^(\^?\[|<|!\[|https?:)', s):
-                continue
-            break
+        if no_links:
+            s, h = caption_elem(rng, used, quotes)
         else:
-            s = words(rng)
-            h = escape(s)
+            s, h = inline_elem(rng, depth, used, quotes)
         srcs.append(s)
         htmls.append(h)
     # separate elements by single blanks; quoted text cannot begin or end with white space
@@ -104,7 +114,8 @@ def inline_paragraph(rng, extra_quotes=False):
                 pre += d + '\n'
                 quotes.append(q)
     src, html = inline_seq(rng, 0, set(), quotes, rng.randint(1, 6))
-    return (pre + '\n' if pre else '') + src, '<p>' + html + '</p>', bool(pre)
+    # a leading word keeps the line from being taken for a block-level element
+    return (pre + '\n' if pre else '') + 'Lead ' + src, '<p>Lead ' + html + '</p>', bool(pre)
 
 
 # ---------------------------------------------------------------------------
@@ -119,8 +130,8 @@ def para(rng):
     return '\n'.join(lines), '<p>' + '\n'.join(lines) + '</p>'
 
 
-CODE_CONTENT = ['*not em*', '<b>raw</b> & co', '[l](u) http://a.b', '{m} {undefined|x}', '..', '# no header', '- no list', '', '  indented',
-                '> q', '.cls #id', "{m}='v'", '// c', '&amp; &#160;', '\\*esc*', 'plain code', 'a::b', '""']
+CODE_CONTENT = ['*not em*', '<b>raw</b> & co', '[l](u) http://a.b', '{m} {undefined|x}', '. x', '# no header', '- no list', '', '  indented',
+                '> q', '.cls #id', "{m}='v'", '// c', '&amp; &#160;', '\\*esc*', 'plain code', 'a::b', '"q"', '/* c */', '<div>']
 
 
 def block(rng, depth, used_delims, mode, kinds=None):
@@ -159,12 +170,13 @@ def block(rng, depth, used_delims, mode, kinds=None):
         if not cands:
             return para(rng)
         d = rng.choice(cands)
-        cls = rng.choice(['', '', 'box', 'c1 c2'])
+        cls = rng.choice(['', '', 'box', 'c1 c2'] if k == 'quote' else ['', '', 'box', 'c1'])
         inner = [block(rng, depth + 1, used_delims | {d}, mode, kinds=[x for x in kinds if x not in ('def',)])
                  for _ in range(rng.randint(1, 3))]
         isrc = '\n\n'.join(s for s, _ in inner)
         ihtml = '\n'.join(h for _, h in inner if h)
-        src = d + (' ' + cls if cls else '') + '\n' + isrc + '\n' + d
+        # a division's class names follow the dots directly ('.. cls' would be a numbered list item)
+        src = d + ((' ' if k == 'quote' else '') + cls if cls else '') + '\n' + isrc + '\n' + d
         if k == 'quote':
             return src, '<blockquote%s>%s</blockquote>' % (' class="%s"' % cls if cls else '', ihtml)
         if cls:
@@ -258,7 +270,7 @@ def render_list(tree, lines, first=True):
             lines += ['""', 'qq', '""']
             html += '<blockquote><p>qq</p></blockquote>'
         elif it['attached'] == 'division':
-            lines += ['.. dv', 'dd', '..']
+            lines += ['..dv', 'dd', '..']
             html += '<div class="dv"><p>dd</p></div>'
         elif it['attached'] == 'indented':
             lines += ['', '  ind', '']
@@ -317,8 +329,11 @@ def macro_document(rng):
 
     for _ in range(rng.randint(1, 4)):
         n = rng.choice(names)
-        v = rng.choice([words(rng, 1, 3), '*' + words(rng, 1, 1) + '*', '$1 and $2', '$1:dflt$ x', 'pre $$1 post',
-                        '{m1} again', '[$1](http://a.b)', 'two\nlines', ''])
+        vals = [words(rng, 1, 3), '*' + words(rng, 1, 1) + '*', '$1 and $2', '$1:dflt$ x', 'pre $$1 post',
+                '[$1](http://a.b)', 'two\nlines', '']
+        if defs.get('m1') and '\n' not in defs['m1'] and '$' not in defs['m1']:
+            vals.append('{m1} again')     # a value referring to an earlier macro
+        v = rng.choice(vals)
         existential = rng.random() < 0.2
         if '\n' in v:
             lines.append("{%s%s}='%s'" % (n, '?' if existential else '', v))
@@ -332,13 +347,15 @@ def macro_document(rng):
     for _ in range(rng.randint(1, 5)):
         kind = rng.choice(['para', 'para', 'header', 'item', 'linestart'])
         n = rng.choice(names + ['undef'])
+        if kind in ('header', 'item') and '\n' in defs.get(n, ''):
+            kind = 'para'     # a multi-line value is only "written in its place" where several lines can stand
         args = [words(rng, 1, 1) for _ in range(rng.randint(0, 3))]
         if rng.random() < 0.2 and args:
             args[0] = ''
         inv = '{' + n + ('|' + '|'.join(args) if args else '') + '}'
         if rng.random() < 0.12:
             inv = '\\' + inv
-        if rng.random() < 0.12 and n in defs and '\n' not in defs[n]:
+        if rng.random() < 0.12 and n in defs and '\n' not in defs[n] and kind in ('para', 'linestart'):
             pat = rng.choice([re.escape(defs[n]) if defs[n] and len(defs[n]) < 12 and re.fullmatch(r'[\w ]*', defs[n]) else 'zzz', '', 'zzz', '.*'])
             inv = '{' + n + rng.choice('=!') + pat + '}'
         if kind == 'para':
@@ -348,7 +365,7 @@ def macro_document(rng):
         elif kind == 'item':
             l = '- ' + inv + ' ' + words(rng, 1, 1)
         else:
-            l = inv + ' ' + words(rng, 1, 2)
+            l = inv + (' ' if re.match(r'^\\?\{[\w-]+(\||\})', inv) else '') + words(rng, 1, 2)
         lines += [l, '']
         # hand substitution
         m = re.match(r'^(.*?)\{([\w-]+)([=!])([^}]*)\}(.*)$', l)
